@@ -30,6 +30,7 @@ func (e *Engine) resetFor(fi *FuncInfo) {
 	e.localRefs = map[string]bool{}
 	e.published = map[string]bool{}
 	e.modifiesOK = map[string]bool{}
+	e.modifiesFld = map[string]bool{}
 	e.obCount = map[string]int{}
 	e.idTerms = map[string]*Term{}
 	e.madeHere = map[string]bool{}
@@ -114,8 +115,15 @@ func (e *Engine) verifyFunc(fi *FuncInfo) (rep *FuncReport) {
 					e.modifiesOK[vt.T.String()] = true
 				}
 			} else if sx, err := parseSpec(n); err == nil {
-				if vt, ok := e.evalSpec(sx, env).(VTerm); ok {
+				if vt, ok := e.evalSpec(sx, env).(VTerm); ok && vt.T.Sort == SRef {
 					e.modifiesOK[vt.T.String()] = true
+				} else if i := strings.LastIndex(n, "."); i > 0 {
+					// a single field of an object (modifies c.columns): only that field may be written
+					if bx, err := parseSpec(n[:i]); err == nil {
+						if bt, ok := e.evalSpec(bx, env).(VTerm); ok && bt.T.Sort == SRef {
+							e.modifiesFld[bt.T.String()+"."+n[i+1:]] = true
+						}
+					}
 				}
 			}
 		}
@@ -184,11 +192,21 @@ func (e *Engine) verifyFunc(fi *FuncInfo) (rep *FuncReport) {
 			}
 			o.st = vis
 		}
+		if _, dead := o.st.mem["@exited"]; dead {
+			// the path ended in os.Exit: the function does not return on it
+			continue
+		}
 		e.checkExit(fi, o, sig)
 		e.obls = append(e.obls, &Obligation{Name: fmt.Sprintf("%s/cover/exit@%d", fi.Key, i+1), Func: fi.Key, Tags: rep.Tags, Hyps: append([]*Term(nil), o.st.pc...), Goal: tFalse, Kind: "cover", Where: c.Where})
 	}
 	// C09: instances hold configuration only - no write to the receiver, to anything reachable from it, or to
 	// package-level state; captured mutable state is confined to one process
+	for _, o := range e.obls {
+		// a write outside the declared frame is a C09 matter whatever else the function is tagged with
+		if strings.HasPrefix(o.Kind, "frame/") && o.Result == "static-fail" && !hasTag(o.Tags, "C09") {
+			o.Tags = append(append([]string(nil), o.Tags...), "C09")
+		}
+	}
 	if len(c.byKind("modifies", "")) == 0 {
 		frameFail := 0
 		for _, o := range e.obls {
